@@ -1,1 +1,27 @@
-fn main() {}
+//! actix-tls monitors: C18 (acceptors) and C19 (connector).
+
+mod c18;
+mod c19;
+mod certs;
+mod pipe;
+
+use vh_core::{Args, Report};
+
+fn main() {
+    vh_core::install_quiet_panic_hook();
+    let args = Args::parse();
+    if args.prop == "__warm__" {
+        return;
+    }
+    let _ = tokio_rustls::rustls::crypto::aws_lc_rs::default_provider().install_default();
+    let mut rep = Report::new(&args);
+    match args.prop.as_str() {
+        "C18" => c18::run(&args, &mut rep),
+        "C19" => c19::run(&args, &mut rep),
+        p => {
+            eprintln!("vh-tls: unknown property {p}");
+            std::process::exit(2);
+        }
+    }
+    std::process::exit(rep.finish(&args));
+}
